@@ -836,3 +836,54 @@ def wiring_contracts():
     pu.cases = [("PVLEncoder", {"value": "str", "__cls__": "PVLEncoder"}), ("ISISEncoder", {"value": "str", "__cls__": "ISISEncoder"})]
     out.append(pu)
     return out
+
+
+def units_contracts():
+    """ODL/PDS3: units only after numbers (C12) - ODLEncoder.encode_value; PVLEncoder.encode_value dispatches quantities"""
+    from ..pyvc.core import LoopSpec, Z
+    from ..pyvc.objtheory import S
+    from ..pyvc.enctheory import inst_of, is_quantity, units_number
+    E = "pvl.encoder."
+    out = []
+
+    def sig(cls, name, const):
+        k = Contract(E + cls + "." + name, params={"value": "pyval"}, exits=[
+            Exit("return", res=lambda ex: Z("str", z3.Const(const, S))), Exit("ValueError"), Exit("TypeError")])
+        k.assumed = True
+        k.note = "signature only"
+        return k
+    out += [sig("PVLEncoder", "encode_quantity", "result_of_encode_quantity"), sig("PVLEncoder", "encode_simple_value", "result_of_encode_simple_value")]
+    notq = LoopSpec(
+        fall_through=lambda env, st, x: [("the value is not an instance of this quantity class", z3.Not(inst_of(env["value"].info["id"], x)))],
+        exit=lambda env, st: [("the value is not a quantity of any registered class", z3.Not(is_quantity(env["value"].info["id"])))])
+    pv_ = Contract(E + "PVLEncoder.encode_value", params={"value": "pyval"}, loops={0: notq}, exits=[
+        Exit("return", res="str", post=lambda pre, post, a, r: [
+            ("a quantity is written by encode_quantity, anything else by encode_simple_value",
+             r.t == z3.If(is_quantity(a["value"].info["id"]), z3.Const("result_of_encode_quantity", S),
+                          z3.Const("result_of_encode_simple_value", S)))]),
+        Exit("ValueError"), Exit("TypeError")], props=("C01", "C18"))
+    pv_.cases = [(cls, {"value": "pyval", "__cls__": cls}) for cls in ("PVLEncoder", "ISISEncoder")]
+    out.append(pv_)
+    return out
+
+
+def odl_units_contracts():
+    from ..pyvc.core import LoopSpec, Z
+    from ..pyvc.objtheory import S
+    from ..pyvc.enctheory import inst_of, is_quantity, units_number
+    E = "pvl.encoder."
+    pve = Contract(E + "PVLEncoder.encode_value", params={"value": "pyval"}, exits=[
+        Exit("return", res=lambda ex: Z("str", z3.Const("result_of_PVLEncoder_encode_value", S))), Exit("ValueError"), Exit("TypeError")])
+    pve.assumed = True
+    pve.note = "contract in the same section (quantities -> encode_quantity)"
+    notq = LoopSpec(
+        fall_through=lambda env, st, x: [("the value is not an instance of this quantity class", z3.Not(inst_of(env["value"].info["id"], x)))],
+        exit=lambda env, st: [("the value is not a quantity of any registered class", z3.Not(is_quantity(env["value"].info["id"])))])
+    c = Contract(E + "ODLEncoder.encode_value", params={"value": "pyval"}, loops={0: notq}, exits=[
+        Exit("return", res="str", post=lambda pre, post, a, r: [
+            ("units are written only after a number: a quantity is passed on only when its magnitude is numeric and not a bool",
+             z3.Or(z3.Not(is_quantity(a["value"].info["id"])), units_number(a["value"].info["id"]))),
+            ("the text is the parent encoder's", r.t == z3.Const("result_of_PVLEncoder_encode_value", S))]),
+        Exit("ValueError"), Exit("TypeError")], props=("C12",))
+    c.cases = [(cls, {"value": "pyval", "__cls__": cls}) for cls in ("ODLEncoder", "PDSLabelEncoder")]
+    return [pve, c]
